@@ -3,9 +3,8 @@ import RenetVerif.Renet.Packet
 namespace RenetVerif
 namespace Acks
 
-/-- the `for index in 0..len` loop of add_pending_ack; `none` = fell through the loop.
-    `cap` is the range-count limit applied after an insertion. -/
-def addAux (cap : Nat) (seq : Nat) : List AckRange → Option (List AckRange)
+/-- the `for index in 0..len` loop of add_pending_ack; `none` = fell through the loop. -/
+def addAux (seq : Nat) : List AckRange → Option (List AckRange)
   | [] => none
   | (s, e) :: rest =>
     if s ≤ seq ∧ seq < e then some ((s, e) :: rest)
@@ -15,7 +14,7 @@ def addAux (cap : Nat) (seq : Nat) : List AckRange → Option (List AckRange)
       | (s2, e2) :: rest2 => if seq + 1 = s2 then some ((s, e2) :: rest2) else some ((s, seq + 1) :: rest)
       | [] => some [(s, seq + 1)]
     else if s > seq + 1 then some ((seq, seq + 1) :: (s, e) :: rest)
-    else (addAux cap seq rest).map ((s, e) :: ·)
+    else (addAux seq rest).map ((s, e) :: ·)
 
 def capFront (cap : Nat) (l : List AckRange) : List AckRange :=
   if l.length > cap then l.tail else l
@@ -24,7 +23,7 @@ def add (cap : Nat) (seq : Nat) (l : List AckRange) : List AckRange :=
   match l with
   | [] => [(seq, seq + 1)]
   | _ =>
-    match addAux cap seq l with
+    match addAux seq l with
     | some l' => capFront cap l'
     | none => capFront cap (l ++ [(seq, seq + 1)])
 
